@@ -1,5 +1,6 @@
 //! Checks of the agdb library (C01-C23, C32). `core_checks <Cxx> [--tier ..] [--replay file]`
 mod c01;
+mod c04;
 mod storops;
 
 fn main() {
@@ -7,6 +8,7 @@ fn main() {
     engine::install_quiet_panic_hook();
     let code = match args.property.as_str() {
         "C01" => c01::run(&args),
+        "C04" => c04::run(&args),
         other => engine::machinery_failure(&format!("core_checks: unknown property {other}")),
     };
     std::process::exit(code);
